@@ -1184,17 +1184,6 @@ mod dev {
         if per(&|z, o, n, t| cuts(z, o, n, t).len() >= 2) {
             v.push("nested-cut");
         }
-        let in_zone = is_suffix_or_eq(o, qn);
-        let referral = in_zone && !no_cut(z, o, qn, t);
-        if referral {
-            v.push("referral-aa");
-        }
-        if referral && (c.qtype == T_NS || c.qtype == T_ANY) {
-            v.push("ns-any-below-cut");
-        }
-        if referral && c.qtype == T_SOA {
-            v.push("soa-below-cut");
-        }
         if visited.iter().skip(1).any(|n| !no_cut(z, o, n, t)) {
             v.push("cname-into-cut");
         }
@@ -1228,19 +1217,19 @@ fn classify(classes: &[&'static str], clause: &str) -> String {
         "wildcard-qname-not-expanded",
     ];
     match clause {
-        "referral-aa" => pick(&["referral-aa"]),
+        // referral-aa, ns-any-below-cut, soa-below-cut: repaired in /repo af8bb96 — no class any more
         "below-cut" => {
-            let mut v = vec!["ns-any-below-cut", "cname-into-cut"];
+            let mut v = vec!["cname-into-cut"];
             v.extend(wild);
             pick(&v)
         }
         // ANY is judged as a whole (one verdict): any deviation on its path explains it
         "any" => {
-            let mut v = vec!["ns-any-below-cut", "cname-into-cut", "nested-cut"];
+            let mut v = vec!["cname-into-cut", "nested-cut"];
             v.extend(wild);
             pick(&v)
         }
-        "referral" => pick(&["ns-any-below-cut", "soa-below-cut", "cname-into-cut", "nested-cut"]),
+        "referral" => pick(&["cname-into-cut", "nested-cut"]),
         "nodata" | "nxdomain" | "negative-soa" | "answer" | "authority" => pick(&wild),
         "denial-missing" => pick(&["nsec-no-wildcard-denial", "soa-query-wildcard-no-proof", "wildcard-expansion-not-proven"]),
         _ => String::new(),
@@ -1375,7 +1364,7 @@ pub fn exec(line: &str, rec: &mut Recorder) {
         return;
     }
     let mut fails = if c.qtype == T_ANY { check_any(&c, &exp, &resp, &qn) } else { check(&c, &exp, &resp) };
-    if c.mode != 'u' && c.dnssec_ok && fails.iter().all(|(cl, _)| *cl == "referral-aa") {
+    if c.mode != 'u' && c.dnssec_ok && fails.is_empty() {
         // the answer itself is the prescribed one: now its signatures and denial proofs
         fails.extend(check_signed(&c, &exp, &resp, &qn));
     }
